@@ -123,16 +123,32 @@ struct Obs {
          if (n > 10'000'000) { problem(std::string(key) + ": absurd size"); rd.seqs.push_back(slot); return; }
          std::vector<Ref> by_iter;
          size_t visited = 0;
-         for (auto it = s.begin(); it != s.end(); ++it) {
-            if (visited > n) break;
-            ++visited;
-            conv(*it, by_iter);
+         auto iterate = [&] {
+            for (auto it = s.begin(); it != s.end(); ++it) {
+               if (visited > n) break;
+               ++visited;
+               conv(*it, by_iter);
+            }
+         };
+         if (opt.order % 3 == 0 or n == 0) {
+            iterate();
+            for (size_t i = 0; i < n; ++i) { auto p = s.position(i); conv(*p, slot.elems); }
+         } else if (opt.order % 3 == 1) {
+            // the last element first, then downwards
+            std::vector<Ref> rev;
+            for (size_t i = n; i-- > 0; ) { auto p = s.position(i); std::vector<Ref> one; conv(*p, one); rev.insert(rev.begin(), one.begin(), one.end()); }
+            slot.elems = rev;
+            iterate();
+         } else {
+            // from the end: the element before end(), then upwards by index, then by iteration
+            std::vector<Ref> last_by_iter, last_by_index;
+            { auto it = s.end(); --it; conv(*it, last_by_iter); }
+            { auto p = s.position(size_t(n) - 1); conv(*p, last_by_index); }
+            if (last_by_iter != last_by_index) problem(std::string(key) + ": *--end() disagrees with the element at size()-1");
+            for (size_t i = 0; i < n; ++i) { auto p = s.position(i); conv(*p, slot.elems); }
+            iterate();
          }
          if (visited != n) problem(std::string(key) + ": iteration visited " + std::to_string(visited) + " elements, size() is " + std::to_string(n));
-         for (size_t i = 0; i < n; ++i) {
-            auto p = s.position(i);
-            conv(*p, slot.elems);
-         }
          if (by_iter != slot.elems) problem(std::string(key) + ": iteration disagrees with positional access");
          if (opt.probe_bounds) {
             const size_t probes[] = { size_t(n), size_t(n) + 1, size_t(n) + 2, SIZE_MAX, SIZE_MAX / 2 };
